@@ -1000,7 +1000,7 @@ class Gen(object):
             if rnd.random() < 0.3:
                 # adversarial: an entity of ANOTHER block whose name also exists in the owner's block
                 try:
-                    blk = self.r.obj(ph)._parent
+                    blk = self.fresh_block(self.r.obj(ph)._parent.id)
                     local = set(x.name for x in getattr(blk, {"DataArray": "data_arrays", "Tag": "tags", "DataFrame": "data_frames",
                                                              "MultiTag": "multi_tags", "Source": "sources"}[want]))
                     foreign = [i for i in xs if getattr(getattr(self.r.obj(i), "_parent", None), "id", None) != blk.id
@@ -1017,7 +1017,7 @@ class Gen(object):
             ph = rnd.choice(owners)
             l = rnd.choice(HAS_LIST[self.r.kind(ph)])
             try:
-                items = list(getattr(self.r.obj(ph), LIST_ATTR[l]))
+                items = list(getattr(self.fresh_owner(ph) or self.r.obj(ph), LIST_ATTR[l]))
             except Exception:
                 items = []
             r = rnd.random()
@@ -1053,7 +1053,7 @@ class Gen(object):
                 if rnd.random() < 0.3:
                     # adversarial: an array of ANOTHER block whose name also exists in the multi-tag's block
                     try:
-                        blk = self.r.obj(ph)._parent
+                        blk = self.fresh_block(self.r.obj(ph)._parent.id)
                         local = set(x.name for x in blk.data_arrays)
                         foreign = [i for i in das if getattr(getattr(self.r.obj(i), "_parent", None), "id", None) != blk.id
                                    and self.r.obj(i).name in local]
@@ -1206,11 +1206,29 @@ class Gen(object):
                     self.dead.add(h)       # never touch the Python object of a deleted owner
                     continue
                 try:
-                    ids = [x.id for x in getattr(self.r.obj(ph), LIST_ATTR[l])]
+                    # read the list through a FRESH object of the owner: the generator's own look at the file must not
+                    # touch the state of the handle objects the operations go through (a replay has no generator)
+                    owner = self.fresh_owner(ph)
+                    ids = [x.id for x in getattr(owner, LIST_ATTR[l])] if owner is not None else []
                     if self.r.handles[h][2] not in ids:
                         self.dead.add(h)
                 except Exception:
                     self.dead.add(h)
+
+    def fresh_block(self, bid):
+        return [b for b in self.r.f.blocks if b.id == bid][0]
+
+    def fresh_owner(self, ph):
+        """a new Python object for the entity of handle ph (a group, array, tag or multi-tag), found by id from the file"""
+        kind, _, eid = self.r.handles[ph]
+        attr = {"Group": "groups", "DataArray": "data_arrays", "Tag": "tags", "MultiTag": "multi_tags"}.get(kind)
+        if attr is None:
+            return None
+        for b in self.r.f.blocks:
+            for x in getattr(b, attr):
+                if x.id == eid:
+                    return x
+        return None
 
     def refresh_dead(self):
         """handles whose entity is no longer in the walk are not used for new ops"""
